@@ -395,6 +395,10 @@ def main():
             rec["history_applies"] = _hist.prelude(c, cfg["_history"], fn, args, kwargs)
             rec["constraints_of_earlier_call"] = len(be.constraints)
         c.entry = c.snapshot()
+        try:
+            c.call_start = len(g.trace)
+        except Exception:  # noqa
+            c.call_start = 0
         g.n0 = (len(be.pubvals), len(be.privvals), len(be.constraints))
         watched = []
 
